@@ -3,6 +3,7 @@
 From NW Require Import Base.Bytes Model.SchemaTypes Gen.Schema Model.Codec Model.MsgInfo Model.Ids Model.Server.
 From NW Require Import Proofs.ServerLib Proofs.ServerRoute Proofs.ServerHandlers Proofs.ServerSteps Proofs.ServerPhases.
 From NW Require Import Proofs.ServerInvBase Proofs.ServerInv Proofs.ServerUniq Proofs.ServerInvCor.
+From NW Require Import Gen.Errors Model.Pool Model.Framing Model.Link Proofs.LinkProofs.
 
 Theorem C06_preauth_is_inert :
   forall (cfg : scfg) (h : N) (m : msg) (p : option (list N)) (c : ctx) (cn : conn),
@@ -45,3 +46,59 @@ Theorem C06_conns_wf_reachable :
   forall (cfg : scfg) (ops : list op) (s : state),
     conns_wf s -> conns_wf (run_state cfg s ops).
 Proof. exact run_state_wf. Qed.
+
+Theorem C06_link_preauth_inert :
+  forall (k : lkind) (cfg : lcfg) (m : msg) (p : option (list N)) (c : lctx),
+    lph c = LConnecting ->
+    lclosed c = false ->
+    let c' := frame_of k cfg m p c in
+    (exists os : list lout, louts c' = louts c ++ os /\ quiet os) /\
+    (good_connect k cfg m = false ->
+     lph c' = LConnecting /\
+     lclosed c' = true /\
+     (exists e : msg, louts c' = louts c ++ [LClose e] /\ is_kind e "ERROR" = true)) /\
+    (good_connect k cfg m = true -> exists hb : N, lph c' = LAuth hb).
+Proof. exact link_preauth_step. Qed.
+
+Theorem C06_link_phase_monotone :
+  forall (k : lkind) (cfg : lcfg) (m : msg) (p : option (list N)) (c : lctx) (hb : N),
+    lph c = LAuth hb -> lph (frame_of k cfg m p c) = LAuth hb.
+Proof. exact link_phase_monotone. Qed.
+
+Theorem C06_link_closed_is_final :
+  forall (k : lkind) (cfg : lcfg) (it : ritem) (c : lctx),
+    lclosed c = true -> link_item k cfg it c = c.
+Proof. exact link_item_closed_final. Qed.
+
+Theorem C06_link_stream_no_act_before_handshake :
+  forall (k : lkind) (cfg : lcfg) (its : list ritem) (c : lctx),
+    lph c = LConnecting ->
+    louts c = [] ->
+    let c' := fold_left (fun (acc : lctx) (it : ritem) => link_item k cfg it acc) its c in
+    forall (pre : list lout) (o : lout) (post : list lout),
+    louts c' = pre ++ o :: post ->
+    match o with
+    | LMod _ | LRoute _ _ => True
+    | _ => False
+    end ->
+    exists (a : msg) (pre1 pre2 : list lout),
+      pre = pre1 ++ LSend a None :: pre2 /\ is_kind a (ack_name k) = true.
+Proof. exact link_stream_no_act_before_handshake. Qed.
+
+Theorem C06_link_wrong_or_missing_secret_refused :
+  forall (k : lkind) (cfg : lcfg) (m : msg) (p : option (list N)) (c : lctx),
+    l_secret cfg <> [] ->
+    lph c = LConnecting ->
+    lclosed c = false ->
+    is_kind m (connect_name k) = true ->
+    get_num m "version" = 1 ->
+    get_ostr m "secret" <> Some (l_secret cfg) ->
+    let c' := frame_of k cfg m p c in
+    lclosed c' = true /\
+    lph c' = LConnecting /\ louts c' = louts c ++ [LClose (err_msg None "UNAUTHORIZED")].
+Proof. exact link_wrong_secret_refused. Qed.
+
+Theorem C06_undeclared_operation_never_sent :
+  forall (cfg : lcfg) (hb id : N) (call : modcall) (o : moutcome),
+    declared_for cfg call = false -> via_link cfg hb id call o = ([], RErr).
+Proof. exact via_link_undeclared_silent. Qed.
